@@ -121,33 +121,32 @@ Section JSt.
   Hypothesis Hp1 : str_ok [p1].
   Hypothesis Hp2 : str_ok [p2].
 
-  Definition ents1 (c : list cell) := jentries d1 c (anseq 0 (S (N.to_nat d1))).
-  Definition ents2 (c : list cell) := jentries d2 c (anseq 0 (S (N.to_nat d2))).
-  Definition etree (e : list cell * list cell) : jv := VObj [([p1], VObj (ents1 (fst e))); ([p2], VObj (ents2 (snd e)))].
+  Definition ents_of (dc : N * list cell) := jentries (fst dc) (snd dc) (anseq 0 (S (N.to_nat (fst dc)))).
+  Definition etree (e : st_cells_l) : jv := VObj [([p1], VObj (ents_of (fst e))); ([p2], VObj (ents_of (snd e)))].
   Definition lasttree : jv := VObj [([p1], VObj [(adec d1, VArr [])]); ([p2], VObj [(adec d2, VArr [])])].
-  Definition doctree (l : list (list cell * list cell)) : jv := VArr (map etree l ++ [lasttree]).
+  Definition doctree (l : list st_cells_l) : jv := VArr (map etree l ++ [lasttree]).
 
-  Definition elem_ok2 (e : list cell * list cell) : Prop :=
-    fst e <> [] /\ snd e <> [] /\
-    Forall (elem_wf q1 d1) (map of_cell (fst e)) /\ Disj q1 w1 (map of_cell (fst e)) /\
-    Forall (elem_wf q2 d2) (map of_cell (snd e)) /\ Disj q2 w2 (map of_cell (snd e)).
+  Definition elem_ok2 (e : st_cells_l) : Prop :=
+    fst (fst e) <= d1 /\ fst (snd e) <= d2 /\ snd (fst e) <> [] /\ snd (snd e) <> [] /\
+    Forall (elem_wf q1 (fst (fst e))) (map of_cell (snd (fst e))) /\ Disj q1 w1 (map of_cell (snd (fst e))) /\
+    Forall (elem_wf q2 (fst (snd e))) (map of_cell (snd (snd e))) /\ Disj q2 w2 (map of_cell (snd (snd e))).
 
   Lemma ws2 : allws [32; 32].
   Proof. repeat constructor. Qed.
 
   Lemma elem_shape e : elem_ok2 e ->
-    exists L, st_json_elem p1 p2 d1 d2 fold e = jrender L /\ JWF L /\ jtoks_of L = toks (etree e) /\
+    exists L, st_json_elem_l p1 p2 fold e = jrender L /\ JWF L /\ jtoks_of L = toks (etree e) /\
               exists L', L = L' ++ [JTk JRB].
   Proof.
-    intros (_ & _ & W1 & _ & W2 & _).
-    destruct (cells_small q1 w1 d1 (fst e) Hw1 Hd1 W1) as [S1 D1].
-    destruct (cells_small q2 w2 d2 (snd e) Hw2 Hd2 W2) as [S2 D2].
-    destruct (to_json_shape fold [32; 32] ws2 d1 (fst e) S1 D1) as [L1 [A1 [A2 [A3 [L1' A4]]]]].
-    destruct (to_json_shape fold [32; 32] ws2 d2 (snd e) S2 D2) as [L2 [B1 [B2 [B3 [L2' B4]]]]].
+    intros (Le1 & Le2 & _ & _ & W1 & _ & W2 & _).
+    destruct (cells_small q1 w1 (fst (fst e)) (snd (fst e)) Hw1 ltac:(lia) W1) as [S1 D1].
+    destruct (cells_small q2 w2 (fst (snd e)) (snd (snd e)) Hw2 ltac:(lia) W2) as [S2 D2].
+    destruct (to_json_shape fold [32; 32] ws2 (fst (fst e)) (snd (fst e)) S1 D1) as [L1 [A1 [A2 [A3 [L1' A4]]]]].
+    destruct (to_json_shape fold [32; 32] ws2 (fst (snd e)) (snd (snd e)) S2 D2) as [L2 [B1 [B2 [B3 [L2' B4]]]]].
     exists ([JTk JLB; JWs [10; 32; 32]; JTk (JStr [p1]); JTk JCol; JWs [32]] ++ L1 ++
             [JTk JCom; JWs [10; 32; 32]; JTk (JStr [p2]); JTk JCol; JWs [32]] ++ L2 ++ [JWs [10]; JTk JRB]).
     split; [|split; [|split]].
-    - unfold st_json_elem. rewrite A1, B1, !jrender_app. cbn [jrender flat_map jcstr tstr app]. rewrite <- ?app_assoc. reflexivity.
+    - unfold st_json_elem_l. rewrite A1, B1, !jrender_app. cbn [jrender flat_map jcstr tstr app]. rewrite <- ?app_assoc. reflexivity.
     - cbn [app]. constructor; [reflexivity|]. constructor; [repeat constructor|]. apply JWF_str; [exact Hp1|].
       constructor; [reflexivity|]. constructor; [repeat constructor|].
       subst L1. apply JWF_app_rb; [exact A2|].
@@ -187,16 +186,16 @@ Section JSt.
     - reflexivity.
   Qed.
 
-  Lemma go_false l : st_json_go p1 p2 d1 d2 fold false l = [44; 10] ++ flat_map (fun e => st_json_elem p1 p2 d1 d2 fold e ++ [44; 10]) l.
+  Lemma go_false l : st_json_go_l p1 p2 fold false l = [44; 10] ++ flat_map (fun e => st_json_elem_l p1 p2 fold e ++ [44; 10]) l.
   Proof.
     induction l as [|e t IH]; [reflexivity|].
-    cbn [st_json_go flat_map]. rewrite IH, <- !app_assoc. reflexivity.
+    cbn [st_json_go_l flat_map]. rewrite IH, <- !app_assoc. reflexivity.
   Qed.
-  Lemma go_true l : st_json_go p1 p2 d1 d2 fold true l = flat_map (fun e => st_json_elem p1 p2 d1 d2 fold e ++ [44; 10]) l.
-  Proof. destruct l as [|e t]; [reflexivity|]. cbn [st_json_go flat_map app]. rewrite go_false, <- !app_assoc. reflexivity. Qed.
+  Lemma go_true l : st_json_go_l p1 p2 fold true l = flat_map (fun e => st_json_elem_l p1 p2 fold e ++ [44; 10]) l.
+  Proof. destruct l as [|e t]; [reflexivity|]. cbn [st_json_go_l flat_map app]. rewrite go_false, <- !app_assoc. reflexivity. Qed.
 
   Lemma elems_shape l : Forall elem_ok2 l ->
-    exists D, flat_map (fun e => st_json_elem p1 p2 d1 d2 fold e ++ [44; 10]) l = jrender D /\
+    exists D, flat_map (fun e => st_json_elem_l p1 p2 fold e ++ [44; 10]) l = jrender D /\
               (forall tail, JWF tail -> JWF (D ++ tail)) /\
               jtoks_of D = flat_map (fun a => toks a ++ [JCom]) (map etree l).
   Proof.
@@ -211,15 +210,15 @@ Section JSt.
   Qed.
 
   Theorem st_json_parse l : Forall elem_ok2 l ->
-    jparse (st_to_json p1 p2 d1 d2 fold l) = JVal (doctree l).
+    jparse (st_to_json_l p1 p2 d1 d2 fold l) = JVal (doctree l).
   Proof.
     intros Hl. destruct (elems_shape l Hl) as [D [E1 [E2 E3]]].
     assert (Htail : JWF [JWs [10]; JTk JRK; JWs [10]]).
     { constructor; [repeat constructor|]. constructor; [reflexivity|]. constructor; [repeat constructor|constructor]. }
     destruct (last_shape _ Htail) as [F1 [F2 F3]].
     set (doc := [JTk JLK; JWs [10]] ++ D ++ last_chunks ++ [JWs [10]; JTk JRK; JWs [10]]).
-    assert (R : st_to_json p1 p2 d1 d2 fold l = jrender doc).
-    { unfold st_to_json, doc. rewrite go_true, E1, F1, !jrender_app. cbn [jrender flat_map jcstr tstr app].
+    assert (R : st_to_json_l p1 p2 d1 d2 fold l = jrender doc).
+    { unfold st_to_json_l, doc. rewrite go_true, E1, F1, !jrender_app. cbn [jrender flat_map jcstr tstr app].
       rewrite <- ?app_assoc. reflexivity. }
     assert (W : JWF doc).
     { unfold doc. cbn [app]. constructor; [reflexivity|]. constructor; [repeat constructor|]. apply E2. exact F2. }
@@ -232,7 +231,7 @@ Section JSt.
       assert (list_max (map hgt (map etree l ++ [lasttree])) <= 3); [|lia].
       apply list_max_le. rewrite Forall_map. apply Forall_app. split.
       - rewrite Forall_map. apply Forall_forall. intros e _. unfold etree. cbn [hgt map snd list_max fold_right].
-        pose proof (hgt_entries (ents1 (fst e)) (jentries_arr _ _ _)). pose proof (hgt_entries (ents2 (snd e)) (jentries_arr _ _ _)).
+        pose proof (hgt_entries (ents_of (fst e)) (jentries_arr _ _ _)). pose proof (hgt_entries (ents_of (snd e)) (jentries_arr _ _ _)).
         cbn [hgt] in *. lia.
       - constructor; [|constructor]. vm_compute. discriminate. }
     pose proof (max_nest_hgt (doctree l)) as Hn.
@@ -240,8 +239,8 @@ Section JSt.
     rewrite prun_tree. reflexivity.
   Qed.
 
-  Definition decoded (e : list cell * list cell) : st_elem :=
-    (sortf q1 (regroup d1 (map of_cell (fst e))), sortf q2 (regroup d2 (map of_cell (snd e)))).
+  Definition decoded (e : st_cells_l) : st_elem :=
+    (sortf q1 (regroup (fst (fst e)) (map of_cell (snd (fst e)))), sortf q2 (regroup (fst (snd e)) (map of_cell (snd (snd e))))).
 
   Lemma lookup_p1 a b : jlookup [p1] [([p1], a); ([p2], b)] = Some a.
   Proof.
@@ -278,23 +277,47 @@ Section JSt.
       rewrite (last_value q1 w1 d1 Hw1 Hd1), (last_value q2 w2 d2 Hw2 Hd2).
       rewrite app_nil_r. f_equal; lia.
     - inversion HF as [|? ? He Ht]; subst.
-      destruct He as (N1 & N2 & W1 & D1 & W2 & D2).
+      destruct He as (Le1 & Le2 & N1 & N2 & W1 & D1 & W2 & D2).
       cbn [map app j2loop]. unfold etree at 1. rewrite lookup_p1, lookup_p2.
-      unfold ents1, ents2.
-      rewrite (json_value_of_entries sortf sortf_perm q1 w1 d1 (fst e) Hw1 Hd1 W1 D1).
-      rewrite (json_value_of_entries sortf sortf_perm q2 w2 d2 (snd e) Hw2 Hd2 W2 D2).
-      destruct (sorted_nonempty q1 d1 (fst e) N1) as [x1 [r1 E1]].
+      unfold ents_of.
+      rewrite (json_value_of_entries sortf sortf_perm q1 w1 (fst (fst e)) (snd (fst e)) Hw1 ltac:(lia) W1 D1).
+      rewrite (json_value_of_entries sortf sortf_perm q2 w2 (fst (snd e)) (snd (snd e)) Hw2 ltac:(lia) W2 D2).
+      destruct (sorted_nonempty q1 (fst (fst e)) (snd (fst e)) N1) as [x1 [r1 E1]].
       { eapply Forall_impl; [|exact W1]. intros x [Hx _]. exact Hx. }
-      destruct (sorted_nonempty q2 d2 (snd e) N2) as [x2 [r2 E2]].
+      destruct (sorted_nonempty q2 (fst (snd e)) (snd (snd e)) N2) as [x2 [r2 E2]].
       { eapply Forall_impl; [|exact W2]. intros x [Hx _]. exact Hx. }
       rewrite E1, E2. rewrite IH; [|exact Ht|lia|lia].
       rewrite <- app_assoc. cbn [app map]. unfold decoded at 2. rewrite E1, E2. reflexivity.
   Qed.
 
-  Theorem st_json_roundtrip l : Forall elem_ok2 l ->
-    st_from_json sortf q1 w1 q2 w2 p1 p2 (st_to_json p1 p2 d1 d2 fold l) = J2Ok d1 d2 (map decoded l).
+  Theorem st_json_roundtrip_l l : Forall elem_ok2 l ->
+    st_from_json sortf q1 w1 q2 w2 p1 p2 (st_to_json_l p1 p2 d1 d2 fold l) = J2Ok d1 d2 (map decoded l).
   Proof.
     intros Hl. unfold st_from_json. rewrite (st_json_parse l Hl). unfold doctree.
     rewrite (j2loop_elems l 0 0 [] Hl (N.le_0_l _) (N.le_0_l _)). reflexivity.
+  Qed.
+
+  (** the usual case: every element labelled with the depths of the MOC2 *)
+  Definition elem_ok2_plain (e : list cell * list cell) : Prop :=
+    fst e <> [] /\ snd e <> [] /\
+    Forall (elem_wf q1 d1) (map of_cell (fst e)) /\ Disj q1 w1 (map of_cell (fst e)) /\
+    Forall (elem_wf q2 d2) (map of_cell (snd e)) /\ Disj q2 w2 (map of_cell (snd e)).
+  Definition decoded_plain (e : list cell * list cell) : st_elem :=
+    (sortf q1 (regroup d1 (map of_cell (fst e))), sortf q2 (regroup d2 (map of_cell (snd e)))).
+
+  Lemma plain_ok l : Forall elem_ok2_plain l -> Forall elem_ok2 (map (st_label d1 d2) l).
+  Proof.
+    intros H. rewrite Forall_map. eapply Forall_impl; [|exact H]. intros e (A & B & C & D & E & F).
+    unfold elem_ok2, st_label. cbn [fst snd]. repeat split; try assumption; lia.
+  Qed.
+
+  Theorem st_json_parse_plain l : Forall elem_ok2_plain l ->
+    jparse (st_to_json p1 p2 d1 d2 fold l) = JVal (doctree (map (st_label d1 d2) l)).
+  Proof. intros H. unfold st_to_json. apply st_json_parse. apply plain_ok. exact H. Qed.
+
+  Theorem st_json_roundtrip l : Forall elem_ok2_plain l ->
+    st_from_json sortf q1 w1 q2 w2 p1 p2 (st_to_json p1 p2 d1 d2 fold l) = J2Ok d1 d2 (map decoded_plain l).
+  Proof.
+    intros H. unfold st_to_json. rewrite (st_json_roundtrip_l _ (plain_ok l H)). rewrite map_map. reflexivity.
   Qed.
 End JSt.
